@@ -18,15 +18,21 @@ Two explorations on the real implementation:
       normals_nodal  mesh.Get_normals(): unit vectors, on the outward side of every adjacent boundary element of a group
       surface_normals (planar 2D mesh moved in 3D) normals of the surface elements: unit, orthogonal to the moved plane,
                      the same sign on all elements and Gauss points
+      edge_normals, closure, flux, bmeasure (planar 2D mesh moved in 3D) the boundary segments of the embedded surface: unit normals lying in the
+                     moved plane, sum of wJ * n == 0, |sum of wJ * (x . n)| / 2 == area (sign not demanded there), sum of wJ == perimeter
 (2) kind="locate"  (E1).  element type x small template mesh x placement {identity, in-plane/generic rotation, out-of-plane
-    embedding (2D), reflection} x batch mode.  Cell shapes: affine; general straight-sided (a displaced vertex: non-parallelogram
+    embedding (2D), reflection, milli / milli_far (cells of 1e-3 / 3e-4, the latter turned and far from the origin), mega (the unit mesh
+    turned and scaled by 1e6: coordinates of the order of 1e6)} x batch mode.  Cell shapes: affine; general straight-sided (a displaced vertex: non-parallelogram
     quadrangles, unequal triangles/tetrahedra); 3D frustum cells (non-affine, planar faces); 3D warped cells (trilinear, non-planar
     faces).  For every element the images of a reference lattice (interior points, points on edges, on faces, the nodes) are the
     query points, given to mesh.Evaluate_dofsValues_at_coordinates in batches of 1, 2, 3, 5, all points of the element, all
-    points of the mesh, and all points of the element with the `elements=[e]` hint; the nodal field holds every monomial of
+    points of the mesh, all points of the element with the `elements=[e]` hint, and all points of the element with the hint listing the
+    element and its neighbours in DESCENDING order (elem_hint_desc); the nodal field holds every monomial of
     degree <= p at once (dof_n = number of monomials); the returned values must equal the monomials at the query points
     (1e-9; 1e-6 where the library inverts the element map iteratively).  A returned row of exact zeros (the constant monomial
     included) is reported as `not_located`, any other deviation as `wrong_value`, an exception as `evaluate_raises`.
+    kind="locate_grid": integer-typed pixels of an image around the mesh: the full grid (int and float typed), every pixel inside the mesh
+    singly (int_1), every ordered pair of 4-neighbour pixels inside the mesh (int_2).
 
 Violation keys: motion checks {check, dom, src, elemType, poly, dim, hist (prefix reached), mirrored (odd number of reflections),
 inward (which boundary faces carry inward normals: none/all/bottom/all_but_bottom/mixed/invalid; boundary checks only)};
@@ -47,7 +53,7 @@ PROPERTY = "C08"
 # field at the element centroids: identity motions
 LETTERS = ["T", "R90", "Rg", "S", "Q", "P"]
 POLYS_QUICK = ["quad", "pent", "L"]
-BATCHES = [1, 2, 3, 5, "elem", "mesh", "elem_hint"]
+BATCHES = [1, 2, 3, 5, "elem", "mesh", "elem_hint", "elem_hint_desc"]
 TOL_EVAL = 1e-9
 TOL_ITER = 1e-9  # (was 1e-6 while the inverse map stopped on an absolute residual: F-C08-inverse-map-unit)
 
@@ -98,7 +104,7 @@ def _locate_meshes(tier):
         else:
             variants = [("affine", 2, 0), ("general", 2, 0), ("general", 1, 0)]
         for shape, k, diag in variants:
-            for mp in ["identity", "rot", "emb", "mirror"] + (["milli"] if shape == "general" else []) + ["milli_far"]:
+            for mp in ["identity", "rot", "emb", "mirror"] + (["milli"] if shape == "general" else []) + ["milli_far", "mega"]:
                 out.append({"kind": "locate", "elemType": et, "k": k, "shape": shape, "diag": diag, "map": mp})
         for poly in (["L"] if tier == "quick" else POLYS_QUICK):
             for mp in ["identity", "emb", "mirror"]:
@@ -114,7 +120,7 @@ def _locate_meshes(tier):
         else:
             variants = [("affine", 1), ("frustum", 1)]
         for shape, k in variants:
-            for mp in ["identity", "rot", "mirror"] + (["milli"] if shape == "frustum" else []) + (["milli_far"] if shape in ("affine", "general") else []):
+            for mp in ["identity", "rot", "mirror"] + (["milli"] if shape == "frustum" else []) + (["milli_far", "mega"] if shape in ("affine", "general") else []):
                 out.append({"kind": "locate", "elemType": et, "k": k, "shape": shape, "diag": 0, "map": mp})
         if tier == "thorough":
             for mp in ["identity", "rot"]:
@@ -141,7 +147,8 @@ GRID_SHAPES = [(9, 6), (6, 9), (7, 7)]  # (nX, nY) pixels: wider than high, high
 def _locate_grid_cases(tier):
     """the batch is a full regular grid of INTEGER-typed coordinates (the pixels of an image: x fastest, z = 0), the mesh lies strictly
     inside the image; every pixel strictly inside the mesh is located and carries the interpolated polynomial; the same batch typed as
-    floats gives the same values."""
+    floats gives the same values.  The same integer-typed pixels are also given singly (int_1: every pixel inside the mesh) and in batches
+    of 2 (int_2: every ordered pair of 4-neighbour pixels inside the mesh: along a row and along a column, forwards and backwards)."""
     out = []
     ets = ["TRI3", "QUAD4", "TRI6", "QUAD8"] if tier == "quick" else list(Z.TYPES_2D)
     for et in ets:
@@ -172,6 +179,30 @@ def _run_locate_grid(case):
     sc = float(np.abs(want).max())
     tol = TOL_ITER if case["distort"] else TOL_EVAL
     v, obs = [], []
+    ins = np.flatnonzero(inside)
+    where = {(int(pix[i, 0]), int(pix[i, 1])): int(i) for i in ins}
+    pairs = [(i, where[q]) for i in ins for q in ((pix[i, 0] + 1, pix[i, 1]), (pix[i, 0] - 1, pix[i, 1]), (pix[i, 0], pix[i, 1] + 1), (pix[i, 0], pix[i, 1] - 1))
+             if q in where]
+    ncalls = 2
+    for name, chunks in (("int_1", [[int(i)] for i in ins]), ("int_2", [list(pr) for pr in pairs])):
+        ncalls += len(chunks)
+        bad, first = 0, None
+        for idx in chunks:
+            try:
+                got = np.asarray(mesh.Evaluate_dofsValues_at_coordinates(pix[idx].copy(), dofs), dtype=float).ravel()
+                if got.shape != (len(idx),):
+                    raise AssertionError(f"returned shape {got.shape}")
+                err = np.abs(got - want[idx]).max()
+                msg = None if err <= tol * sc else f"got {got.tolist()!r}, exact {want[idx].tolist()!r}" + (" (not located)" if np.any(got == 0.0) else "")
+                check = "not_located" if (msg and np.any(got == 0.0)) else "wrong_value"
+            except Exception as err:  # the property promises a value for every point of the mesh, singly or in batches
+                msg, check = f"{type(err).__name__}: {str(err)[:160]}", "evaluate_raises"
+            if msg is not None:
+                bad += 1
+                first = first or (check, f"pixel(s) {pix[idx, :2].tolist()}: {msg}")
+        if bad:
+            v.append(viol(first[0], f"{et} mesh inside a {nX}x{nY} image, integer-typed batches of {len(chunks[0])} pixel(s) inside the mesh ({name}): {bad} of {len(chunks)} "
+                                    f"calls fail; first: {first[1]}", batch=name, **key))
     for name, batch in (("int_grid", pix), ("float_grid", P)):
         try:
             got = np.asarray(mesh.Evaluate_dofsValues_at_coordinates(batch.copy(), dofs), dtype=float).ravel()
@@ -188,7 +219,7 @@ def _run_locate_grid(case):
             i = int(np.flatnonzero(inside)[np.argmax(err)])
             v.append(viol("not_located" if lost else "wrong_value", f"{et} mesh inside a {nX}x{nY} image, batch {name}: {lost} of {int(inside.sum())} pixels inside the mesh "
                                                                      f"are not located; worst pixel {pix[i, :2].tolist()}: got {got[i]!r}, exact {want[i]!r}", batch=name, **key))
-    return {"violations": v, "fingerprint": fp("grid", et, nX, nY, case["distort"], *obs), "nontrivial": bool(inside.sum() > 4), "transitions": 2,
+    return {"violations": v, "fingerprint": fp("grid", et, nX, nY, case["distort"], *obs), "nontrivial": bool(inside.sum() > 4), "transitions": ncalls,
             "outcome": "ok" if not v else "violation:" + "+".join(sorted({x["check"] for x in v}))}
 
 
@@ -341,7 +372,7 @@ def describe(tier, seed):
     return {
         "rule": "motion cases: one per (domain, element type, history of maximal length); the invariant is evaluated in the initial state "
                 "and after every operation; non-trivial = >= 1 motion applied to a mesh of > 1 element; locate cases: one per "
-                "(element type, template mesh, placement), inside: every element x every lattice point x 7 batch modes; non-trivial = at least "
+                "(element type, template mesh, placement), inside: every element x every lattice point x 8 batch modes; non-trivial = at least "
                 "one query point evaluated correctly; distinct = fingerprint of the observed measure/centroid/flux/closure/orientation pattern "
                 "resp. of the evaluated values",
         "exhaustive": True,
@@ -349,10 +380,13 @@ def describe(tier, seed):
                  "gmsh polygons quad/pent/L (h=0.5; extrusions h=0.6, height 0.8, 2 layers), distorted k=2 template (2D), unit box with boundary "
                  "reconstructed by MeshIO.Surface_reconstruction (3D), planar 2D gmsh meshes moved by the 3D alphabet (embedded); point location on "
                  "template meshes of 1-8 cells: affine, general straight-sided (displaced vertex), 3D frustum cells (non-affine, planar faces), "
-                 "3D warped cells (non-planar faces), unstructured gmsh meshes of the L polygon (batch modes element/mesh only); lattice of 15/16/35/64/40 points per TRI/QUAD/TETRA/HEXA/PRISM plus the element's nodes; "
-                 "batches of 1, 2, 3, 5, element, mesh, element with hint",
+                 "3D warped cells (non-planar faces), unstructured gmsh meshes of the L polygon (batch modes element / mesh / element with descending hint only); lattice of 15/16/35/64/40 points per TRI/QUAD/TETRA/HEXA/PRISM plus the element's nodes; "
+                 "batches of 1, 2, 3, 5, element, mesh, element with hint [e], element with hint (e and its neighbours, descending); placements identity, rot, "
+                 "emb, mirror, milli, milli_far, mega (unit mesh turned and scaled by 1e6); integer-typed pixel grids 9x6, 6x9, 7x7 around a mesh: full grid, every "
+                 "inside pixel singly, every ordered pair of 4-neighbour inside pixels; embedded plane meshes: surface normals and the boundary segments "
+                 "(in-plane unit normals, closure, |flux|, perimeter)",
         "alphabet": {"letters": len(LETTERS), "element_types": len(Z.TYPES_2D) + len(Z.TYPES_3D), "domains": nd,
-                     "batch_modes": len(BATCHES), "placements": 6, "cell_shapes": 4},
+                     "batch_modes": len(BATCHES), "placements": 7, "cell_shapes": 4, "int_pixel_batches": 3},
         "assumptions": [
             "generic angle / axis / plane / centre are seeded representatives (VERIF_SEED); 90 deg and the translation are fixed",
             "Rotate: right-handed rotation by theta degrees about the axis through `center` (Rodrigues formula written here); Symmetry: reflection "
@@ -360,8 +394,9 @@ def describe(tier, seed):
             "outward unit normal of a flat boundary element: from its vertices, oriented away from the centroid of the adjacent main element",
             "monomial degree demanded at point evaluation: element order on affine elements; on non-affine (bi/trilinear) quadrangles/hexahedra/prisms 1 for "
             "QUAD4/QUAD8/HEXA8/HEXA20/PRISM6/PRISM15 (serendipity spaces do not contain x^2 on a non-affine cell) and 2 for QUAD9/HEXA27/PRISM18",
-            "boundary segments of a planar mesh lying out of the xy-plane: Get_normals_e_pg is cross(e_z, t) by construction and not an in-plane "
-            "normal; not demanded (only the surface elements' own normals are checked there)",
+            "boundary segments of a planar mesh moved out of the xy-plane (domain 'emb'): their normals must lie in the plane of the surface and close "
+            "the domain (integral of n = 0, |flux of x| / 2 = area); whether they point out of or into the domain is not demanded there (it follows "
+            "the side of the surface one looks from; the orientation proper is demanded in the domains '2d' and '3d')",
             "tolerances: 1e-11 coordinates, 1e-10 measure/centroid/closure/flux relative to the size of the domain; evaluated values 1e-9 where the "
             "library inverts the element map directly, 1e-6 on non-affine cells where it iterates with scipy least_squares (default tolerances: "
             "stops at |J^T r| < 1e-8, i.e. a position error up to 1e-8/|J|^2 ~ 5e-7 for cells of size >= 0.3); the defects reported by this check are errors of 1e-2 .. 4e-1",
@@ -586,6 +621,31 @@ def _check_state(mesh, X0, ex, Q, b, dom, key, step, obs):
         if worst > 1e-9 or len(signs) != 1:
             v.append(viol("surface_normals", f"{det} surface-element normals: max deviation from +-(moved plane normal) {worst:.2e}, signs {sorted(signs)}", **key))
         obs += [sorted(signs)]
+        # the boundary segments of the embedded surface close the (plane) domain: unit normals lying in the moved plane, integral of n = 0,
+        # |flux of the position vector| / 2 = area.  The SIGN of the flux (outward / inward) is not demanded here: on a surface in space it
+        # follows the side from which the surface is looked at; the orientation in the plane z = 0 is the subject of the domain '2d'.
+        tot, flux, S, off_plane, bad_unit = np.zeros(3), 0.0, 0.0, 0.0, 0.0
+        for g in mesh.Get_list_groupElem(1):
+            n = np.asarray(g.Get_normals_e_pg(MatrixType.mass), dtype=float)
+            wJ = np.asarray(g.Get_weightedJacobian_e_pg(MatrixType.mass), dtype=float)
+            x = np.asarray(g.Get_GaussCoordinates_e_pg(MatrixType.mass), dtype=float)
+            nops += 3
+            tot += np.einsum("ep,epd->d", wJ, n)
+            flux += float(np.einsum("ep,epd,epd->", wJ, n, x))
+            S += float(wJ.sum())
+            bad_unit = max(bad_unit, float(np.abs(np.linalg.norm(n, axis=-1) - 1).max()))
+            off_plane = max(off_plane, float(np.abs(n @ m).max()))
+        flux /= 2
+        if abs(S - ex["bmeasure"]) > 1e-10 * ex["bmeasure"]:
+            v.append(viol("bmeasure", f"{det} sum of boundary weighted jacobians {S!r}, exact perimeter {ex['bmeasure']!r}", **key))
+        if bad_unit > 1e-9 or off_plane > 1e-9:
+            v.append(viol("edge_normals", f"{det} normals of the boundary segments of the embedded surface: max | |n|-1 | = {bad_unit:.2e}, max |n . (normal of the moved "
+                                          f"plane)| = {off_plane:.2e} (they must lie in the plane of the surface)", **key))
+        if np.abs(tot).max() > 1e-10 * max(S, 1e-300):
+            v.append(viol("closure", f"{det} integral of n over the boundary segments of the embedded surface = {tot} (perimeter {S:.4g})", **key))
+        if abs(abs(flux) - ex["measure"]) > 1e-10 * S * L:
+            v.append(viol("flux", f"{det} |flux of the position vector| / 2 over the boundary segments of the embedded surface = {abs(flux)!r}, area {ex['measure']!r}", **key))
+        obs += [abs(flux), np.round(tot, 9), S]
         return v, nops
     # ---- boundary groups
     nout = _outward_normals(mesh, Xref)
@@ -829,6 +889,11 @@ def _placement(name, d):
         # aligned with an axis: the location of the points of the boundary may depend neither on the unit nor on the origin
         Q = Z.rot3(np.array([0.0, 0.0, 1.0]) if d == 2 else _generic_dir(r, False), np.deg2rad(r.uniform(20, 70)))
         return 3e-4 * Q, np.array([65.0, -48.0, 0.0 if d == 2 else 31.0])
+    if name == "mega":
+        # the same body in yet another unit (a structure of kilometres written in millimetres, geo-referenced coordinates): coordinates of
+        # the order of 1e6, turned so that no edge is aligned with an axis (the round-off of a point of an edge is ~ 1e-10 in that unit)
+        Q = Z.rot3(np.array([0.0, 0.0, 1.0]) if d == 2 else _generic_dir(r, False), np.deg2rad(r.uniform(20, 70)))
+        return 1e6 * Q, np.zeros(3)
     if name == "rot":
         axis = np.array([0.0, 0.0, 1.0]) if d == 2 else _generic_dir(r, False)
         Q = Z.rot3(axis, np.deg2rad(r.uniform(20, 70)))
@@ -903,13 +968,13 @@ def _run_locate(case):
     # (its stopping rule |J^T r| < 1e-8 leaves a position error of 1e-8 / |J|^2, |J| ~ half the cell size >= 0.15 here: 5e-7)
     iterative = (shape != "affine" and Z.topo(et) in ("QUAD", "HEXA")) or shape == "frustum"
     tol = TOL_ITER if iterative else TOL_EVAL
-    modes = ("elem", "mesh") if shape == "gmsh" else (1, 2, 3, 5, "elem", "elem_hint", "mesh")
+    modes = ("elem", "mesh", "elem_hint_desc") if shape == "gmsh" else (1, 2, 3, 5, "elem", "elem_hint", "elem_hint_desc", "mesh")
     # geometry must be exactly (multi)linear in the vertices (assumption of the reference map)
     xi, cls = _ref_lattice(et)
     nv = _nvert(et)
     Nl_nodes = Z.linear_shape(et, Z.local_coords(et))
     for e in range(con.shape[0]):
-        if np.abs(Nl_nodes @ coord[con[e, :nv]] - coord[con[e]]).max() > 1e-12:
+        if np.abs(Nl_nodes @ coord[con[e, :nv]] - coord[con[e]]).max() > 1e-12 * max(1.0, float(np.abs(coord).max())):
             return {"violations": [], "fingerprint": "guard", "nontrivial": False, "skipped": "geometry_not_multilinear", "transitions": 0}
     Nl = Z.linear_shape(et, xi)
     pts_e = [Nl @ coord[con[e, :nv]] for e in range(con.shape[0])]
@@ -924,7 +989,7 @@ def _run_locate(case):
 
     dofs = field(coord).ravel()  # node-major: value of monomial j at node n is dofs[n * len(monos) + j]
     scale = max(1.0, float(np.abs(field(coord)).max()))
-    if mp in ("milli", "milli_far"):
+    if mp in ("milli", "milli_far", "mega"):
         # every monomial on its own scale (a field of size 1e-3 off by 40 % must not hide behind the constant monomial)
         scale = np.maximum(np.abs(field(coord)).max(axis=0), 1e-300)
     viols = {}
@@ -977,6 +1042,11 @@ def _run_locate(case):
             query(P, cls, "elem", None, e)
         if "elem_hint" in modes:
             query(P, cls, "elem_hint", np.array([e]), e)
+        if "elem_hint_desc" in modes:
+            # the documented hint "elements that may contain the coordinates" in another legal form: the element and all its neighbours
+            # (elements sharing a node with it), listed in DESCENDING order
+            nb = np.flatnonzero(np.isin(con, con[e]).any(axis=1))
+            query(P, cls, "elem_hint_desc", np.sort(nb)[::-1].copy(), e)
     query(np.vstack(pts_e), cls * len(pts_e), "mesh", None, -1)
 
     out = []
